@@ -260,7 +260,7 @@ func (g *genCtx) txsPayload(variant int) *Payload {
 		return &Payload{Tree: nL(t)}
 	case 6: // box with garbage / nested content
 		t := pickTx()
-		t.L[0] = nU(10) // params.BoxTx
+		t.L[0] = nU(10)  // params.BoxTx
 		t.L[5] = &Node{} // a box has no recipient
 		switch r.Intn(4) {
 		case 0:
